@@ -25,6 +25,7 @@ def shErr (k : Nat) : Err → Err
 @[simp] theorem shSt_continued (k s) : (shSt k s).continued = s.continued := rfl
 @[simp] theorem shSt_indents (k s) : (shSt k s).indents = s.indents := rfl
 @[simp] theorem shSt_lnum (k s) : (shSt k s).lnum = s.lnum + k := rfl
+@[simp] theorem shSt_commentLine (k s) : (shSt k s).commentLine = s.commentLine := rfl
 @[simp] theorem shSt_endProgs (k s) : (shSt k s).endProgs = s.endProgs.map (shProg k) := rfl
 @[simp] theorem shProg_mode (k p) : (shProg k p).mode = p.mode := rfl
 @[simp] theorem shProg_pat (k p) : (shProg k p).pat = p.pat := rfl
@@ -111,7 +112,7 @@ def shStmt (k : Nat) (r : List Tok5 × TState × StmtAction) : List Tok5 × TSta
 theorem nextStatement_sh (k : Nat) (P : Pats) (s : TState) :
     nextStatement P (shSt k s) = emap (shErr k) (shStmt k) (nextStatement P s) := by
   unfold nextStatement
-  obtain ⟨lnum, pl, c, ind, line, pos, max, eps⟩ := s
+  obtain ⟨lnum, pl, c, ind, line, pos, max, eps, cl⟩ := s
   dsimp only [shSt]
   refine ite_both _ (fun _ => rfl) (fun _ => ?_)
   refine ite_both _ (fun _ => rfl) (fun _ => ?_)
@@ -361,17 +362,17 @@ theorem lineHead_sh (k : Nat) (E : Env) (P : Pats) (s : TState) :
   unfold lineHead
   have hns := nextStatement_sh k P s
   have hep := handleEndProgs_sh k E P { s with continued := false }
-  obtain ⟨lnum, pl, c, ind, line, pos, max, eps⟩ := s
+  obtain ⟨lnum, pl, c, ind, line, pos, max, eps, cl⟩ := s
   dsimp only [shSt] at hns hep ⊢
   simp only [List.isEmpty_map]
   refine ite_both _ (fun _ => ?_) (fun _ => ?_)
   · rw [hep]
-    cases handleEndProgs E P ⟨lnum, pl, false, ind, line, pos, max, eps⟩ with
+    cases handleEndProgs E P ⟨lnum, pl, false, ind, line, pos, max, eps, cl⟩ with
     | error e => rfl
     | ok r => rfl
   · refine ite_both _ (fun _ => ?_) (fun _ => ?_)
     · rw [hns]
-      cases nextStatement P ⟨lnum, pl, c, ind, line, pos, max, eps⟩ with
+      cases nextStatement P ⟨lnum, pl, c, ind, line, pos, max, eps, cl⟩ with
       | error e => rfl
       | ok r =>
         obtain ⟨ts, s', a⟩ := r
@@ -383,8 +384,8 @@ theorem moveNextLine_sh (k : Nat) (s : TState) (l : List Nat) : (shSt k s).moveN
   congr 1
   omega
 
-theorem nextEndTokens_sh (k : Nat) (E : Env) (ll : List Nat) (s : TState) (h1 : 1 ≤ s.lnum) :
-    nextEndTokens E ll (shSt k s) = (nextEndTokens E ll s).map (shTok k) := by
+theorem nextEndTokens_sh (k : Nat) (ll : List Nat) (lc : Bool) (s : TState) (h1 : 1 ≤ s.lnum) :
+    nextEndTokens ll lc (shSt k s) = (nextEndTokens ll lc s).map (shTok k) := by
   unfold nextEndTokens
   have hl : s.lnum + k - 1 = s.lnum - 1 + k := by omega
   simp only [shSt_lnum, shSt_indents, hl]
